@@ -1,4 +1,5 @@
-"""Registry.tla binding (growth beyond the listed properties; used by C15): every operation log of
+"""X01 -- Registry.tla binding (growth beyond the listed properties; run as `./check X01`, not part of any
+listed property's verdict): every operation log of
 length MaxOps explored by TLC over {register, clear, load extension, resolve, capture profile, apply
 profile} is replayed into the real ProcessorRegistry / plugin registry / bootstrap profile code and
 the set of registered modules and the resolvability of three probe names is compared after each step."""
@@ -63,6 +64,15 @@ def replay_logs(logs: List[List[Dict[str, Any]]]):
         load_extensions(["semantiva-examples", "verif_ext"])
         verif_ext.register()
     return out
+
+
+def check(tier: str) -> int:
+    run_ = core.Run("X01", tier)
+    run_.rule = ("every operation log of length MaxOps over {register, clear, load extension, resolve, capture, apply} "
+                 "explored by TLC is replayed into the real registry; registered modules and resolvability compared per step")
+    run_.exhaustive = tier == "thorough"
+    run(run_, tier)
+    return run_.finish()
 
 
 def run(run_: core.Run, tier: str) -> None:
